@@ -392,6 +392,9 @@ class BBLinearityChecker(ast.NodeVisitor):
         self._reassign_inout_args(func_ty, node)
 
     def visit_TensorCall(self, node: TensorCall) -> None:
+        # The called tuple of functions is a use of its places like for `LocalCall`.
+        # Otherwise, they are missing from the inputs of the enclosing basic block
+        self.visit(node.func)
         for arg in node.args:
             self.visit(arg)
         self._reassign_inout_args(node.tensor_ty, node)
